@@ -274,4 +274,55 @@ end
 /-- expected initializer name for a `state_dict` key: prefixed with the root's name (if it has one). -/
 def rootKey (root : Mod) (k : String) : String := qualifyInit [root.name.getD ""] k
 
+/-! ## realisation when `forward`s build subgraphs
+
+A module's `forward` may call its children from inside the trace function of `GraphBuilder.subgraph`
+(an `If`/`Loop`/`Scan` body), to any nesting depth.  The builders then form a stack: `Module.__call__` pushes the
+module's name on the builder it is called with (the innermost one), `build_graph` (`builder.py:211`) gives the
+sub-builder a **copy of its parent's** scope stack, `Parameter._realize` (`_parameter.py:60`, since commit
+77b0052) qualifies with the scope of the builder the module is called with and registers in the root graph.
+`ctl` lists the paths (child keys from the root) of the modules whose `forward` runs the children in a
+sub-builder.  The two policies make the earlier / mutated behaviours expressible for the refutation witnesses. -/
+
+structure SubPolicy where
+  /-- sub-builder scope := copy of the *parent's* scope (`false`: of the root's). -/
+  inheritParent : Bool
+  /-- parameters are qualified with the *current* builder's scope (`false`: with the root builder's). -/
+  qualifyCurrent : Bool
+  deriving DecidableEq, Repr
+
+/-- the code: `list(parent._scope_stack)` and `builder._qualify_initializer_name`. -/
+def SubPolicy.code : SubPolicy := ⟨true, true⟩
+
+/-- scope of the root builder = last element of the builder stack. -/
+def rootScope (top : List String) (rest : List (List String)) : List String := (top :: rest).getLast (by simp)
+
+mutual
+  def visitB (pol : SubPolicy) (ctl : List (List String)) (path : List String) (top : List String)
+      (rest : List (List String)) : Mod → List (String × Nat)
+    | .mk .list _ _ cs => visitAllB pol ctl path top rest cs
+    | .mk _ n ps cs =>
+      let top' := top ++ [n.getD ""]
+      -- the push goes to the current builder; the root builder's own scope only changes when it *is* the current one
+      let rest' := rest
+      let q := if pol.qualifyCurrent then top' else rootScope top' rest'
+      ps.map (fun p => (qualifyInit q p.name, p.pid)) ++
+        (if ctl.contains path then
+          let sub := if pol.inheritParent then top' else rootScope top' rest'
+          visitAllB pol ctl path sub (top' :: rest') cs
+        else visitAllB pol ctl path top' rest' cs)
+  def visitAllB (pol : SubPolicy) (ctl : List (List String)) (path : List String) (top : List String)
+      (rest : List (List String)) : Mods → List (String × Nat)
+    | .nil => []
+    | .cons k m r => visitB pol ctl (path ++ [k]) top rest m ++ visitAllB pol ctl path top rest r
+end
+
+/-- the root is called on the root builder (empty scope, no enclosing builders). -/
+def realizeB (pol : SubPolicy) (ctl : List (List String)) (root : Mod) : List (String × Nat) :=
+  match root with
+  | .mk _ n ps cs =>
+    let top' := [n.getD ""]
+    dedupPid (ps.map (fun p => (qualifyInit top' p.name, p.pid)) ++
+      (if ctl.contains [] then visitAllB pol ctl [] top' [top'] cs else visitAllB pol ctl [] top' [] cs)) []
+
 end OV.C18
